@@ -4,6 +4,7 @@ translate (rounding-mode table -> lean/Claripy/Gen/FpTables.lean) -> prove -> co
 claripy's own translation; Lean model of fp.py vs the real folding) -> oracle on the real code (folded vs Z3, all five modes)."""
 import os
 
+import itertools
 from lib import fs_fp as P
 from lib.common import LEAN, write_if_changed
 import translate_fptables as tf
@@ -254,6 +255,48 @@ def run(ctx):
                                     ctx.violation(sig, "%s(%s, %s) with the symbolic operand = %#x is built as %s and denotes %s; SMT-LIB gives %s" % (
                                         op, rm, "x, %#x" % lit if pos == 0 else "%#x, x" % lit, xv, built.op, P.fmt_res(got), P.fmt_res(want)),
                                         {"kind": "built", "op": op, "fmt": fmt, "rm": rm, "lit": lit, "pos": pos, "x": xv})
+    # ---------------------------------------------------------------- 4c2. chains of conversions of a SYMBOLIC operand
+    # fpToFP(rm2, fpToFP(rm1, x, mid), sort) for every pair of modes and every chain of sorts of length 2 and 3: a narrowing step
+    # rounds under ITS mode, so the chain is not the direct conversion under the outer mode (0.1 through FLOAT under RNE, then
+    # "to FLOAT" under RTZ, is not 0.1 to FLOAT under RTZ).  As in 4c the expression claripy BUILDS is translated and evaluated
+    # with the symbol pinned; the reference is the written chain assembled with the raw Z3 constructors, step by step.
+    n_chain = 0
+    chain_vals = {"D": [0x3FB999999999999A, 0xBFB999999999999A, 0x3FF0000000000001, 0x36A0000000000001, 0x47EFFFFFF0000001, 0x0000000000000001,
+                        0x7FF0000000000000, 0x8000000000000000, 0x3FE0000010000000, 0xC7EFFFFFFFFFFFFF],
+                  "F": [0x3DCCCCCD, 0x00000001, 0x7F7FFFFF, 0x80000000, 0xBF800001]}
+    for src in "DF":
+        Wsrc = P.WIDTH[src]
+        xb = claripy.BVS("c02_chain_%s" % src, Wsrc)
+        xf = xb.raw_to_fp()
+        zx = bzb.convert(xb)
+        for sorts in [("F", "F"), ("F", "D"), ("D", "F"), ("D", "D"), ("F", "D", "F"), ("D", "F", "D"), ("F", "F", "D"), ("D", "F", "F")]:
+            for rms in itertools.product(P.RMS, repeat=len(sorts)):
+                if len(sorts) == 3 and ctx.rng.random() > ctx.pick(0.15, 1.0):
+                    continue
+                try:
+                    built = xf
+                    for rm, fm in zip(rms, sorts):
+                        built = claripy.fpToFP(P.rm_obj(rm), built, P.sort_obj(fm))
+                    zb = bzb.convert(built)
+                except Exception as ex:  # noqa
+                    ctx.violation("C02/fpToFP-chain/raised:%s" % type(ex).__name__, "the chain %s under %s of a symbolic %s cannot be built/translated: %s" % (
+                        sorts, rms, src, str(ex)[:100]), {"kind": "chain", "src": src, "sorts": list(sorts), "rms": list(rms), "x": 0})
+                    continue
+                for xv in chain_vals[src]:
+                    ref = _z3.fpBVToFP(_z3.BitVecVal(xv, Wsrc, z.ctx), z.sort(src))
+                    for rm, fm in zip(rms, sorts):
+                        ref = bzb._op_raw_fpToFP(z.rm(rm), ref, z.sort(fm))
+                    want = z.value(ref)
+                    got = z.value(_z3.substitute(zb, (zx, _z3.BitVecVal(xv, Wsrc, z.ctx))))
+                    ctx.count(); n_chain += 1
+                    if got != want:
+                        sig = "C02/fpToFP-chain/construction-rewrite/%s->%s/%s" % (src, "->".join(sorts), "same-mode" if len(set(rms)) == 1 else "mixed-modes")
+                        if sig not in reported:
+                            reported.add(sig)
+                            ctx.violation(sig, "a symbolic %s = %#x converted through %s under %s is built as %s and denotes %s; SMT-LIB gives %s" % (
+                                src, xv, sorts, rms, built, P.fmt_res(got), P.fmt_res(want)),
+                                {"kind": "chain", "src": src, "sorts": list(sorts), "rms": list(rms), "x": xv})
+    ctx.cov["input_distribution"]["fpToFP-chains(symbolic operand)"] = n_chain
     # ---------------------------------------------------------------- 4d. comparisons of two SYMBOLIC operands under Boolean structure
     # Not / And / Or / If over float comparisons are rewritten by the Boolean simplifiers (negation tables, complement
     # detection): the expression claripy builds, with both symbols pinned to boundary patterns (NaN, zeros of both signs,
@@ -388,6 +431,21 @@ def replay(ctx, obj):
         got = z.value(_z3.substitute(bzb.convert(built), (bzb.convert(xb), _z3.BitVecVal(xv, W, z.ctx))))
         want = z.solver_side(op, fmt, rm, (xv, lit) if pos == 0 else (lit, xv))
         print("%s %s built as %s: denotes %s at x=%#x, SMT-LIB gives %s" % (op, rm, built.op, P.fmt_res(got), xv, P.fmt_res(want)))
+        return 0 if got == want else 1
+    if r["kind"] == "chain":
+        import claripy, z3 as _z3
+        src, sorts, rms, xv = r["src"], r["sorts"], r["rms"], r["x"]
+        W = P.WIDTH[src]
+        bzb = claripy.backends.z3
+        xb = claripy.BVS("c02_chain_%s" % src, W)
+        built = xb.raw_to_fp()
+        ref = _z3.fpBVToFP(_z3.BitVecVal(xv, W, z.ctx), z.sort(src))
+        for rm, fm in zip(rms, sorts):
+            built = claripy.fpToFP(P.rm_obj(rm), built, P.sort_obj(fm))
+            ref = bzb._op_raw_fpToFP(z.rm(rm), ref, z.sort(fm))
+        got = z.value(_z3.substitute(bzb.convert(built), (bzb.convert(xb), _z3.BitVecVal(xv, W, z.ctx))))
+        want = z.value(ref)
+        print("chain %s under %s built as %s: denotes %s at x=%#x, SMT-LIB gives %s" % (sorts, rms, built, P.fmt_res(got), xv, P.fmt_res(want)))
         return 0 if got == want else 1
     if r["kind"] == "cancel":
         import claripy
